@@ -12,8 +12,9 @@ package microreader
 //@   safe
 //@   loop 1:
 //@     invariant 0 <= offset && offset <= fileSize && int64(len(rbuf)) == fileSize
+//@     decreases int(fileSize - offset)
 //@   loop 2:
-//@     invariant 0 <= offset && offset <= fileSize && int64(len(rbuf)) == fileSize
+//@     invariant 0 <= offset && offset <= fileSize && int64(len(rbuf)) == fileSize && int(fileSize - offset) < measure(1)
 // The column-name dictionary maps each name to its insertion rank: the values
 // are written only by this function as len(dict) and are therefore small
 // non-negative integers.  A map-value invariant is outside the contract
